@@ -143,6 +143,16 @@ class Exchange:
         per = (fault or {}).get("per") or []
         changed = []
         reports = []
+        if m == "listClearedOrders":
+            # settled bets of the market / one summary per market (groupBy=MARKET); the double reports a summary
+            # for every market asked for (as if the account had settled bets there under the strategy ref)
+            mids = params.get("marketIds") or []
+            if params.get("groupBy") == "MARKET":
+                rows = [{"marketId": x, "profit": 0.0, "commission": 0.0, "betCount": 1, "customerStrategyRef": (params.get("customerStrategyRefs") or [None])[0]} for x in mids]
+            else:
+                rows = [{"marketId": b.market_id, "betId": b.bet_id, "sizeSettled": b.sm, "profit": 0.0, "customerOrderRef": b.ref, "customerStrategyRef": b.sref, "selectionId": b.sel, "side": b.side} for b in self.bets.values() if b.market_id in mids and b.sm > 0]
+            call["reports"] = rows
+            return {"clearedOrders": rows, "moreAvailable": False}
         if m == "placeOrders" and params.get("customerRef") in self.dedupe:
             # documented de-dupe of a re-submission with the same customerRef: nothing is placed again
             call["dedupe"] = True
